@@ -84,6 +84,7 @@ type Annot struct { // things attached to a cut or a loop head
 	GhostPost  []GhostStmt     // ghost updates after havoc/assume
 	Forget     bool            // "+ forget": restart the path condition from the enclosing loop head
 	Stop       bool            // "+ stop": end the path here (after the assertions of the cut)
+	Optional   bool            // "+ optional": the anchor of this cut need not exist in every variant of the function
 	Assumes    []*SpecExpr     // only allowed with explicit "assumed" justification; listed in evidence
 }
 
@@ -369,6 +370,10 @@ func ParseContracts(file string) ([]*Contract, error) {
 					nm = fmt.Sprintf("d%d", len(ann.Derive)+1)
 				}
 				ann.Derive = append(ann.Derive, EnsuresClause{nm, e})
+			case "optional":
+				// the anchor of this cut exists only in some variants of a generated function: not reaching it is
+				// not reported (every other cut must be reached on some path)
+				ann.Optional = true
 			case "stop":
 				// the analysis of the path ends at this cut, after its invariants have been asserted: the contract
 				// speaks about the part of the function up to here (an entry guard), not about what follows
